@@ -243,8 +243,9 @@ class Gen:
         target = self.r.choice(["/t", "/t?ttl=forever", "/cas", "/import", "/a?context=" + (self.ctx_q() or "0" * 25)])
         if self.r.random() < 0.5:
             tail = self.r.choice([b"5\r\nhello\r\nZZ\r\n", b"3\r\nabc\r\n-1\r\n", b"5\r\nhel", b"g\r\n"])
+            # the client stops sending afterwards: a body that merely has not arrived yet is not an error, the server waits
             op = {"op": "http", "method": "POST", "target": target, "raw_tail_hex": tail.hex(), "te_chunked": True,
-                  "half_close": self.r.random() < 0.7}
+                  "half_close": True}
         else:
             part = self.r.choice([b"0123456789", b"{\"topic\":", b""])
             op = {"op": "http", "method": "POST", "target": target, "raw_tail_hex": part.hex(), "content_length": len(part) + self.r.choice([1, 90]),
